@@ -739,9 +739,10 @@ package dials
 //@   requires C02_input_is_older_than_the_copier: allocT(vroot(in)) < allocT(d) && oldHeap(d)
 //@   requires wf_memo_holds_only_nodes_of_the_finite_input_graph: memoRoom(d) >= 0
 //@   decreases memoRoom(d), boxDepth(in), vrank(vtype(in)), 2
-//@   modifies rh, maps:deepCopier.ptrMap, maps:deepCopier.mapMap, rec_registerPair
+//@   modifies rh, maps:deepCopier.ptrMap, maps:deepCopier.mapMap, rec_registerPair, rec_deepCopyStruct, rec_deepCopyPtr, rec_deepCopyIface, rec_deepCopyMap, rec_deepCopySlice, rec_deepCopyArray
 //@   ensures C03_every_copied_value_is_registered_for_sharing: rec_registerPair_cnt >= old(rec_registerPair_cnt) + 1
 //@        && rec_registerPair_arg1[old(rec_registerPair_cnt)] == in && rec_registerPair_arg2[old(rec_registerPair_cnt)] == out
+//@   ensures C02_every_composite_kind_is_copied_by_its_copier: (kind(vtype(in)) == Struct ==> rec_deepCopyStruct_cnt > old(rec_deepCopyStruct_cnt)) && (kind(vtype(in)) == Ptr ==> rec_deepCopyPtr_cnt > old(rec_deepCopyPtr_cnt)) && (kind(vtype(in)) == Interface ==> rec_deepCopyIface_cnt > old(rec_deepCopyIface_cnt)) && (kind(vtype(in)) == Map ==> rec_deepCopyMap_cnt > old(rec_deepCopyMap_cnt)) && (kind(vtype(in)) == Slice ==> rec_deepCopySlice_cnt > old(rec_deepCopySlice_cnt)) && (kind(vtype(in)) == Array ==> rec_deepCopyArray_cnt > old(rec_deepCopyArray_cnt))
 //@   ensures memoOK(d) && oldHeap(d)
 //@   ensures C02_objects_older_than_the_copier_are_never_written: olderThanCopierUntouched(d, old(rh))
 //@   ensures C02_writes_stay_below_the_destination: writesStayBelow(out, old(rh), old(clock))
@@ -749,12 +750,13 @@ package dials
 
 //@ func dials.(*deepCopier).deepCopyStruct(d, in, out)
 //@   props C02 C03
+//@   flag record deepCopyStruct
 //@   safety C16 C03
 //@   requires wfCopier(d) && valid(in) && writable(d, out) && vtype(in) == vtype(out) && vtype(in) != nil
 //@   requires C02_input_is_older_than_the_copier: allocT(vroot(in)) < allocT(d) && oldHeap(d) && kind(vtype(in)) == Struct && canSet(out)
 //@   requires wf_memo_holds_only_nodes_of_the_finite_input_graph: memoRoom(d) >= 0
 //@   decreases memoRoom(d), boxDepth(in), vrank(vtype(in)), 1
-//@   modifies rh, maps:deepCopier.ptrMap, maps:deepCopier.mapMap, rec_registerPair
+//@   modifies rh, maps:deepCopier.ptrMap, maps:deepCopier.mapMap, rec_registerPair, rec_deepCopyStruct, rec_deepCopyPtr, rec_deepCopyIface, rec_deepCopyMap, rec_deepCopySlice, rec_deepCopyArray
 //@   loop 0:
 //@     invariant 0 <= i && i <= numField(vtype(in))
 //@     invariant memoOK(d) && oldHeap(d)
@@ -768,12 +770,13 @@ package dials
 
 //@ func dials.(*deepCopier).deepCopyPtr(d, in, out)
 //@   props C02 C03
+//@   flag record deepCopyPtr
 //@   safety C16 C03
 //@   requires wfCopier(d) && valid(in) && writable(d, out) && vtype(in) == vtype(out) && vtype(in) != nil
 //@   requires C02_input_is_older_than_the_copier: allocT(vroot(in)) < allocT(d) && oldHeap(d) && kind(vtype(in)) == Ptr && canSet(out)
 //@   requires wf_memo_holds_only_nodes_of_the_finite_input_graph: memoRoom(d) >= 0
 //@   decreases memoRoom(d), boxDepth(in), vrank(vtype(in)), 1
-//@   modifies rh, maps:deepCopier.ptrMap, maps:deepCopier.mapMap, rec_registerPair
+//@   modifies rh, maps:deepCopier.ptrMap, maps:deepCopier.mapMap, rec_registerPair, rec_deepCopyStruct, rec_deepCopyPtr, rec_deepCopyIface, rec_deepCopyMap, rec_deepCopySlice, rec_deepCopyArray
 //@   ensures memoOK(d) && oldHeap(d)
 //@   ensures C02_objects_older_than_the_copier_are_never_written: olderThanCopierUntouched(d, old(rh))
 //@   ensures C02_writes_stay_below_the_destination: writesStayBelow(out, old(rh), old(clock))
@@ -781,12 +784,13 @@ package dials
 
 //@ func dials.(*deepCopier).deepCopyIface(d, in, out)
 //@   props C02 C03
+//@   flag record deepCopyIface
 //@   safety C16 C03
 //@   requires wfCopier(d) && valid(in) && writable(d, out) && vtype(in) == vtype(out) && vtype(in) != nil
 //@   requires C02_input_is_older_than_the_copier: allocT(vroot(in)) < allocT(d) && oldHeap(d) && kind(vtype(in)) == Interface && canSet(out)
 //@   requires wf_memo_holds_only_nodes_of_the_finite_input_graph: memoRoom(d) >= 0
 //@   decreases memoRoom(d), boxDepth(in), vrank(vtype(in)), 1
-//@   modifies rh, maps:deepCopier.ptrMap, maps:deepCopier.mapMap, rec_registerPair
+//@   modifies rh, maps:deepCopier.ptrMap, maps:deepCopier.mapMap, rec_registerPair, rec_deepCopyStruct, rec_deepCopyPtr, rec_deepCopyIface, rec_deepCopyMap, rec_deepCopySlice, rec_deepCopyArray
 //@   ensures memoOK(d) && oldHeap(d)
 //@   ensures C02_objects_older_than_the_copier_are_never_written: olderThanCopierUntouched(d, old(rh))
 //@   ensures C02_writes_stay_below_the_destination: writesStayBelow(out, old(rh), old(clock))
@@ -794,6 +798,7 @@ package dials
 
 //@ func dials.(*deepCopier).deepCopySlice(d, in, out)
 //@   props C02 C03
+//@   flag record deepCopySlice
 //@   safety C16 C03
 //@   requires wfCopier(d) && valid(in) && writable(d, out) && vtype(in) == vtype(out) && vtype(in) != nil
 //@   requires C02_input_is_older_than_the_copier: allocT(vroot(in)) < allocT(d) && oldHeap(d) && kind(vtype(in)) == Slice
@@ -801,7 +806,8 @@ package dials
 //@   requires C02_settable_copy_still_aliases_the_input: canSet(out) ==> visnil(out) || vpointerH(rh, out) == vpointerH(rh, in)
 //@   requires wf_memo_holds_only_nodes_of_the_finite_input_graph: memoRoom(d) >= 0
 //@   decreases memoRoom(d), boxDepth(in), vrank(vtype(in)), 1
-//@   modifies rh, maps:deepCopier.ptrMap, maps:deepCopier.mapMap, rec_registerPair
+//@   modifies rh, maps:deepCopier.ptrMap, maps:deepCopier.mapMap, rec_registerPair, rec_deepCopyStruct, rec_deepCopyPtr, rec_deepCopyIface, rec_deepCopyMap, rec_deepCopySlice, rec_deepCopyArray
+//@   ensures C02_the_copy_has_its_own_referent: !old(visnil(in)) && canSet(out) ==> !visnil(out) && young(d, vptr(out))
 //@   ensures memoOK(d) && oldHeap(d)
 //@   ensures C02_objects_older_than_the_copier_are_never_written: olderThanCopierUntouched(d, old(rh))
 //@   ensures C02_writes_stay_below_the_destination: writesStayBelow(out, old(rh), old(clock))
@@ -809,13 +815,14 @@ package dials
 
 //@ func dials.(*deepCopier).deepCopyMap(d, in, out)
 //@   props C02 C03
+//@   flag record deepCopyMap
 //@   safety C16 C03
 //@   requires C02_settable_copy_still_aliases_the_input: canSet(out) ==> visnil(out) || vpointerH(rh, out) == vpointerH(rh, in)
 //@   requires wfCopier(d) && valid(in) && writable(d, out) && vtype(in) == vtype(out) && vtype(in) != nil
 //@   requires C02_input_is_older_than_the_copier: allocT(vroot(in)) < allocT(d) && oldHeap(d) && kind(vtype(in)) == Map
 //@   requires wf_memo_holds_only_nodes_of_the_finite_input_graph: memoRoom(d) >= 0
 //@   decreases memoRoom(d), boxDepth(in), vrank(vtype(in)), 1
-//@   modifies rh, maps:deepCopier.ptrMap, maps:deepCopier.mapMap, rec_registerPair
+//@   modifies rh, maps:deepCopier.ptrMap, maps:deepCopier.mapMap, rec_registerPair, rec_deepCopyStruct, rec_deepCopyPtr, rec_deepCopyIface, rec_deepCopyMap, rec_deepCopySlice, rec_deepCopyArray
 //@   loop 0:
 //@     invariant C03_the_map_is_memoized_before_its_entries_are_copied: memoRoom(d) < old(memoRoom(d))
 //@     invariant !visnil(out) && young(d, vptr(out)) && allocT(vptr(out)) < clock && vptr(out) != nil
@@ -824,6 +831,7 @@ package dials
 //@     invariant C02_objects_older_than_the_copier_are_never_written: olderThanCopierUntouched(d, old(rh))
 //@     invariant C02_writes_stay_below_the_destination: writesStayBelow(out, old(rh), old(clock))
 //@     invariant C03_memo_only_grows: memoRoom(d) <= old(memoRoom(d)) && rec_registerPair_cnt >= old(rec_registerPair_cnt)
+//@   ensures C02_a_newly_memoized_map_has_its_own_referent: !old(visnil(in)) && canSet(out) && memoRoom(d) < old(memoRoom(d)) ==> !visnil(out) && young(d, vptr(out))
 //@   ensures memoOK(d) && oldHeap(d)
 //@   ensures C02_objects_older_than_the_copier_are_never_written: olderThanCopierUntouched(d, old(rh))
 //@   ensures C02_writes_stay_below_the_destination: writesStayBelow(out, old(rh), old(clock))
@@ -832,6 +840,7 @@ package dials
 // deepCopyArray(in, out): arrays, and slices whose backing array was just allocated by the copier
 //@ func dials.(*deepCopier).deepCopyArray(d, in, out)
 //@   props C02 C03
+//@   flag record deepCopyArray
 //@   safety C16 C03
 //@   requires wfCopier(d) && valid(in) && valid(out) && vtype(in) == vtype(out) && vtype(in) != nil && (kind(vtype(in)) == Array || kind(vtype(in)) == Slice)
 //@   requires C02_input_is_older_than_the_copier: ite(kind(vtype(in)) == Slice, visnil(in) || allocT(vptr(in)) < allocT(d), allocT(vroot(in)) < allocT(d)) && oldHeap(d)
@@ -842,13 +851,19 @@ package dials
 //@   requires C03_slices_arrive_as_unaddressable_views: kind(vtype(in)) == Slice ==> !canAddr(in) && !canAddr(out)
 //@   requires wf_memo_holds_only_nodes_of_the_finite_input_graph: memoRoom(d) >= 0
 //@   decreases memoRoom(d), boxDepth(in), vrank(vtype(in)), 0
-//@   modifies rh, maps:deepCopier.ptrMap, maps:deepCopier.mapMap, rec_registerPair
+//@   modifies rh, maps:deepCopier.ptrMap, maps:deepCopier.mapMap, rec_registerPair, rec_deepCopyStruct, rec_deepCopyPtr, rec_deepCopyIface, rec_deepCopyMap, rec_deepCopySlice, rec_deepCopyArray
 //@   loop 0:
 //@     invariant 0 <= z
+//@     invariant C02_a_slice_copy_writes_only_the_backing_array: forall w Val :: {visnilH(rh, w)} {vptrH(rh, w)} {vlenH(rh, w)} {vcapH(rh, w)} {vpointerH(rh, w)}
+//@        kind(vtype(out)) == Slice && allocT(vroot(w)) < old(clock) && vroot(w) != vptrH(old(rh), out) ==>
+//@        visnilH(rh, w) == visnilH(old(rh), w) && vptrH(rh, w) == vptrH(old(rh), w) && vlenH(rh, w) == vlenH(old(rh), w) && vcapH(rh, w) == vcapH(old(rh), w) && vpointerH(rh, w) == vpointerH(old(rh), w)
 //@     invariant memoOK(d) && oldHeap(d)
 //@     invariant C02_objects_older_than_the_copier_are_never_written: olderThanCopierUntouched(d, old(rh))
 //@     invariant C02_writes_stay_below_the_destination: writesStayBelow(out, old(rh), old(clock))
 //@     invariant C03_memo_only_grows: memoRoom(d) <= old(memoRoom(d)) && rec_registerPair_cnt >= old(rec_registerPair_cnt)
+//@   ensures C02_a_slice_copy_writes_only_the_backing_array: forall w Val :: {visnilH(rh, w)} {vptrH(rh, w)} {vlenH(rh, w)} {vcapH(rh, w)} {vpointerH(rh, w)}
+//@        kind(vtype(out)) == Slice && allocT(vroot(w)) < old(clock) && vroot(w) != vptrH(old(rh), out) ==>
+//@        visnilH(rh, w) == visnilH(old(rh), w) && vptrH(rh, w) == vptrH(old(rh), w) && vlenH(rh, w) == vlenH(old(rh), w) && vcapH(rh, w) == vcapH(old(rh), w) && vpointerH(rh, w) == vpointerH(old(rh), w)
 //@   ensures memoOK(d) && oldHeap(d)
 //@   ensures C02_objects_older_than_the_copier_are_never_written: olderThanCopierUntouched(d, old(rh))
 //@   ensures C02_writes_stay_below_the_destination: writesStayBelow(out, old(rh), old(clock))
